@@ -80,9 +80,11 @@ func newInterpreter(prog *ssa.Program, ts *TermStore, cfg *Config) *interpreter 
 	return i
 }
 
+// isGeneratedPkg: packages that hold only protoc output (their initialisers build descriptors through reflection
+// and unsafe and are not executed). recordio/proto and wal/proto are hand-written wrappers and are initialised.
 func isGeneratedPkg(p *ssa.Package) bool {
 	path := p.Pkg.Path()
-	return strings.HasSuffix(path, "/proto")
+	return strings.HasSuffix(path, "/sstables/proto") || strings.HasSuffix(path, "/simpledb/proto") || strings.HasSuffix(path, "/test_files")
 }
 
 // stdInitPkgs: standard packages whose package-level tables are needed by code executed from SSA and whose
